@@ -511,76 +511,79 @@ theorem skipPreamble_fillers (fs : List Filler) (hfs : ∀ f ∈ fs, f.wf = true
 
 theorem LineOK_threadLabel (lb : ThreadLabel) : LineOK lb.print := by cases lb <;> decide
 
-theorem parseThread_printThread (d : ThreadDoc) (h : d.wf = true) : parseThread (printThread d) = .ok (expectedThread d) := by
+theorem splitLines_printThread (d : ThreadDoc) (h : d.wf = true) : splitLines (printThread d) = d.lines := by
   simp only [ThreadDoc.wf, Bool.and_eq_true, List.all_eq_true] at h
   obtain ⟨⟨⟨hpre, hhead⟩, hrecs⟩, hend⟩ := h
-  -- lines survive printing
-  have hlines : splitLines (printThread d) = d.lines := by
-    apply splitLines_unlines
-    intro l hl
-    simp only [ThreadDoc.lines, List.mem_append, List.mem_flatMap] at hl
-    rcases hl with ((hl | hl) | ⟨r, hr, hl⟩) | hl
-    · exact LineOK_fillers (List.all_eq_true.2 hpre) l hl
-    · cases hh : d.head with
-      | none => simp [hh] at hl
-      | some p =>
-        obtain ⟨n, fs⟩ := p
-        simp only [hh, List.mem_cons] at hl hhead
-        rcases hl with rfl | hl
-        · have h1 : LineOK (asc "--- threadz ") := by decide
-          have h2 : LineOK (asc " ---") := by decide
-          simp only [threadzLine]; lineok; exact ⟨h1, h2⟩
-        · exact LineOK_fillers hhead l hl
-    · have hw := hrecs r hr
-      simp only [ThreadRec.wf, Bool.and_eq_true, List.all_eq_true] at hw
-      simp only [ThreadRec.lines, List.mem_cons] at hl
+  apply splitLines_unlines
+  intro l hl
+  simp only [ThreadDoc.lines, List.mem_append, List.mem_flatMap] at hl
+  rcases hl with ((hl | hl) | ⟨r, hr, hl⟩) | hl
+  · exact LineOK_fillers (List.all_eq_true.2 hpre) l hl
+  · cases hh : d.head with
+    | none => simp [hh] at hl
+    | some p =>
+      obtain ⟨n, fs⟩ := p
+      simp only [hh, List.mem_cons] at hl hhead
       rcases hl with rfl | hl
-      · have h1 : LineOK (asc "--- Thread ") := by decide
-        have h2 : LineOK (asc " (name: ") := by decide
-        have h3 : LineOK (asc ") stack: ---") := by decide
-        have h4 : LineOK r.name := LineOK_of_isPrint hw.1.1.1
-        simp only [ThreadRec.headerLine]; lineok
-        exact ⟨⟨⟨⟨h1, h2⟩, h4⟩, by decide⟩, h3⟩
-      · cases hb : r.body with
-        | same blanks indent =>
-          simp only [hb, ThreadBody.lines, List.mem_append, List.mem_replicate, List.mem_singleton] at hl
-          rcases hl with hl | hl
-          · rw [hl.2]; exact LineOK_nil
-          · subst hl
-            have : LineOK sameMarker := by decide
-            lineok; exact this
-        | stack ls =>
-          have hb' := hw.2
-          simp only [hb, Bool.and_eq_true, List.all_eq_true] at hb'
-          simp only [hb, ThreadBody.lines, List.mem_flatMap, List.mem_append, List.mem_replicate, List.mem_singleton] at hl
-          obtain ⟨tl, htl, hl⟩ := hl
-          rcases hl with hl | hl
-          · rw [hl.2]; exact LineOK_nil
-          · subst hl
-            have hs : LineOK (match tl.sym with | none => [] | some t => asc ": " ++ t) := by
-              cases hsym : tl.sym with
-              | none => exact LineOK_nil
-              | some t =>
-                have := (hb'.1 tl htl).2
-                rw [hsym] at this
-                have hlit : LineOK (asc ": ") := by decide
-                exact LineOK_append hlit (LineOK_of_isPrint (fun b hb => (symOK_bytes (by simpa using this) b hb).2.2))
-            simp only [ThreadLine.print]; lineok
-            exact ⟨LineOK_threadLabel _, hs⟩
-    · cases he : d.ending with
-      | map m =>
-        rw [he] at hl hend
-        have hl' : l ∈ tailLines sentinelMemoryMap (some m) := hl
-        exact LineOK_tailLines LineOK_sentinelMemoryMap (fun m' hm' => by cases hm'; exact hend) l hl'
-      | noStack n m =>
-        rw [he] at hl hend
-        simp only [ThreadEnd.lines, List.mem_cons] at hl
-        rcases hl with rfl | hl
-        · have h1 : LineOK (asc "---- no stack trace for ") := by decide
-          have h2 : LineOK (asc " threads ----") := by decide
-          simp only [noStackLine]; lineok; exact ⟨h1, h2⟩
-        · exact LineOK_tailLines LineOK_sentinelMemoryMap (fun m' hm' => by
-            subst hm'; simpa [ThreadEnd.wf] using hend) l hl
+      · have h1 : LineOK (asc "--- threadz ") := by decide
+        have h2 : LineOK (asc " ---") := by decide
+        simp only [threadzLine]; lineok; exact ⟨h1, h2⟩
+      · exact LineOK_fillers hhead l hl
+  · have hw := hrecs r hr
+    simp only [ThreadRec.wf, Bool.and_eq_true, List.all_eq_true] at hw
+    simp only [ThreadRec.lines, List.mem_cons] at hl
+    rcases hl with rfl | hl
+    · have h1 : LineOK (asc "--- Thread ") := by decide
+      have h2 : LineOK (asc " (name: ") := by decide
+      have h3 : LineOK (asc ") stack: ---") := by decide
+      have h4 : LineOK r.name := LineOK_of_isPrint hw.1.1.1
+      simp only [ThreadRec.headerLine]; lineok
+      exact ⟨⟨⟨⟨h1, h2⟩, h4⟩, by decide⟩, h3⟩
+    · cases hb : r.body with
+      | same blanks indent =>
+        simp only [hb, ThreadBody.lines, List.mem_append, List.mem_replicate, List.mem_singleton] at hl
+        rcases hl with hl | hl
+        · rw [hl.2]; exact LineOK_nil
+        · subst hl
+          have : LineOK sameMarker := by decide
+          lineok; exact this
+      | stack ls =>
+        have hb' := hw.2
+        simp only [hb, Bool.and_eq_true, List.all_eq_true] at hb'
+        simp only [hb, ThreadBody.lines, List.mem_flatMap, List.mem_append, List.mem_replicate, List.mem_singleton] at hl
+        obtain ⟨tl, htl, hl⟩ := hl
+        rcases hl with hl | hl
+        · rw [hl.2]; exact LineOK_nil
+        · subst hl
+          have hs : LineOK (match tl.sym with | none => [] | some t => asc ": " ++ t) := by
+            cases hsym : tl.sym with
+            | none => exact LineOK_nil
+            | some t =>
+              have := (hb'.1 tl htl).2
+              rw [hsym] at this
+              have hlit : LineOK (asc ": ") := by decide
+              exact LineOK_append hlit (LineOK_of_isPrint (fun b hb => (symOK_bytes (by simpa using this) b hb).2.2))
+          simp only [ThreadLine.print]; lineok
+          exact ⟨LineOK_threadLabel _, hs⟩
+  · cases he : d.ending with
+    | map m =>
+      rw [he] at hl hend
+      have hl' : l ∈ tailLines sentinelMemoryMap (some m) := hl
+      exact LineOK_tailLines LineOK_sentinelMemoryMap (fun m' hm' => by cases hm'; exact hend) l hl'
+    | noStack n m =>
+      rw [he] at hl hend
+      simp only [ThreadEnd.lines, List.mem_cons] at hl
+      rcases hl with rfl | hl
+      · have h1 : LineOK (asc "---- no stack trace for ") := by decide
+        have h2 : LineOK (asc " threads ----") := by decide
+        simp only [noStackLine]; lineok; exact ⟨h1, h2⟩
+      · exact LineOK_tailLines LineOK_sentinelMemoryMap (fun m' hm' => by
+          subst hm'; simpa [ThreadEnd.wf] using hend) l hl
+
+theorem parseThread_printThread (d : ThreadDoc) (h : d.wf = true) : parseThread (printThread d) = .ok (expectedThread d) := by
+  have hlines := splitLines_printThread d h
+  simp only [ThreadDoc.wf, Bool.and_eq_true, List.all_eq_true] at h
+  obtain ⟨⟨⟨hpre, hhead⟩, hrecs⟩, hend⟩ := h
   -- the lines after the preamble
   obtain ⟨e0, emore, hE, he0⟩ := d.ending.lines_boundary
   have hALL : ∃ x more, d.recs.flatMap (ThreadRec.lines d.width) ++ d.ending.lines = x :: more ∧ IsBoundary x ∧
